@@ -130,3 +130,99 @@ def str_args(body, t):
         if c is not None and c.get("c") in ("str", "bstr"):
             out.append(c["v"])
     return out
+
+
+# ------------------------------------------------------------------------------------------------
+# byte-string match tries  (`match bytes { b"Name" => .., _ => .. }` lowers to a length test + per-byte switches)
+# ------------------------------------------------------------------------------------------------
+
+def _len_eq_const(body, t):
+    """if switch `t` tests `Eq(PtrMetadata(x) | len, const N)` return (N, subject_local) else None"""
+    d = t["discr"]
+    if "p" not in d or d["p"]["proj"]:
+        return None
+    df = single_def(body, d["p"]["l"])
+    if df is None or df["kind"] != "assign":
+        return None
+    rv = df["rv"]
+    if rv["k"] != "bin" or rv["op"] != "Eq":
+        return None
+    n = None
+    subj = None
+    for o in rv["ops"]:
+        c = const_of(body, o)
+        if c is not None and c.get("c") == "int":
+            n = int(c["v"])
+        else:
+            # operand chain to PtrMetadata
+            cur = o
+            for _ in range(4):
+                if "p" not in cur:
+                    break
+                d2 = single_def(body, cur["p"]["l"])
+                if d2 is None or d2["kind"] != "assign":
+                    break
+                r2 = d2["rv"]
+                if r2["k"] == "other" and "PtrMetadata" in r2.get("dbg", ""):
+                    subj = r2["dbg"]
+                    break
+                if r2["k"] == "un" and r2.get("op") == "PtrMetadata":
+                    subj = r2["ops"][0]["p"]["l"]
+                    break
+                if r2["k"] == "use":
+                    cur = r2["ops"][0]
+                    continue
+                break
+    if n is None or subj is None:
+        return None
+    return n, subj
+
+
+def byte_match_arms(body, start):
+    """walk a byte-string match starting at block `start`.
+    returns (arms, defaults): arms = list of (literal bytes, leaf block); defaults = set of leaf blocks reached when
+    no literal matches.  Returns None if `start` does not begin such a match."""
+    arms = []
+    defaults = set()
+    seen_any = [False]
+
+    def walk(bi, length, chars, depth):
+        if depth > 400:
+            return
+        b = body.blocks[bi]
+        t = b["term"]
+        if t["k"] == "goto" and not b["stmts"]:
+            return walk(t["t"], length, chars, depth + 1)
+        if t["k"] == "switch":
+            d = t["discr"]
+            if "p" in d:
+                ci = [e for e in d["p"]["proj"] if isinstance(e, dict) and "cidx" in e]
+                if ci and length is not None:
+                    seen_any[0] = True
+                    idx = ci[0]["cidx"]
+                    for v, tb in t["targets"]:
+                        c2 = dict(chars)
+                        c2[idx] = int(v)
+                        walk(tb, length, c2, depth + 1)
+                    walk(t["otherwise"], None, {}, depth + 1)
+                    return
+                le = _len_eq_const(body, t)
+                if le is not None:
+                    seen_any[0] = True
+                    n, _ = le
+                    for v, tb in t["targets"]:
+                        if v == "0":
+                            walk(tb, None, {}, depth + 1)
+                    if n == 0:
+                        arms.append((b"", t["otherwise"]))
+                    else:
+                        walk(t["otherwise"], n, {}, depth + 1)
+                    return
+        if length is not None and len(chars) == length and length > 0:
+            arms.append((bytes(chars[i] for i in range(length)), bi))
+        else:
+            defaults.add(bi)
+    walk(start, None, {}, 0)
+    if not seen_any[0]:
+        return None
+    return arms, defaults
